@@ -315,11 +315,17 @@ impl THistory {
                         return true;
                     }
                 };
+                let renet_was_disconnected = c.renet.is_disconnected();
                 let r = if code == 203 { c.transport.update(Duration::from_nanos(dt), &mut c.renet) } else { c.transport.send_packets(&mut c.renet) };
                 let err = r.err();
+                // C20: a disconnect decided by the message layer is pushed down by the next update, whatever the handshake state
+                let layers_disagree = code == 203 && renet_was_disconnected && !c.transport.verif_netcode_client().is_disconnected();
                 if let Some(NetcodeTransportError::IO(e)) = &err {
                     // an OS level failure is outside the model: report it as a harness problem, not as a violation
                     self.comment(&format!("io error {}", e));
+                }
+                if layers_disagree {
+                    self.violate("C20", format!("client {}: the message layer was disconnected before NetcodeClientTransport::update and the netcode layer is still not disconnected after it", k));
                 }
                 let sent = self.pump_clients().remove(&k).unwrap_or_default();
                 if sent.iter().any(|(bb, _)| bb.len() > 1400) {
@@ -408,6 +414,15 @@ impl THistory {
                     None => unresolved_tree(),
                 };
                 self.record(Tree::L(v.to_vec()), obs);
+            }
+            232 => {
+                // the application disconnects the message layer; the next transport update must push it down
+                let k = u(1).unwrap_or(0);
+                let c = match self.clients.get_mut(&k) { Some(c) => c, None => return true };
+                c.renet.disconnect();
+                c.explicit_disconnect = true;
+                let st = status_tree(&c.renet);
+                self.record(Tree::L(v.to_vec()), st);
             }
             231 => {
                 let (k, dt) = (u(1).unwrap_or(0), u(2).unwrap_or(0));
